@@ -13,13 +13,21 @@ Clauses of the property and where they are:
 * grid points enumerate the full Cartesian product ............ `gridpts_spec`, `gridpts_count`, `gridpts_empty_bin_witness`
 * lattice: bin centres inside their cells and ranges ............ `lattice_bins_centres`, `lattice_points_spec`
 * exactly prod(nbins) / npts members .......................... `lattice_points_spec`, `lattice_int_points_count`, `member_count`
-* sampled points stay within their ranges ..................... `samples_in_range`, `samplepts_in_range`
+* sampled points stay within their ranges ..................... `samples_in_range`, `samplepts_in_range` (uniform sampler),
+    `dist_samples_in_range`, `samplepts_dist_in_range`, `clip_in_range` (user-supplied distribution: the draw / clip /
+    redraw-what-sits-on-a-bound loop of `random_samples`, for ALL draw streams)
 * randomly_bin: strided products, product = N for any shuffle .. `strided_prod`, `randomly_bin_spec`, `randomly_bin_none_spec`
 * best energy = min over members, solution is that member's .... `update_best_min`, `update_best_last_tie`, `update_best_prev_irrelevant`
 * totals = sums over members .................................. `totals`
 * every member carries the ensemble's configuration ........... `member_inherits`
+* members are fresh copies of the nested solver (object identity), the configured instance handed to `SetNestedSolver`
+  is a template that no solve advances, ensembles sharing it are independent
+    ........................................................... `init_members_fresh`, `members_fresh_copies`,
+                                                                `template_untouched`, `ensembles_independent`
 Not modelled here (checked on the implementation by the monitor of harness/c09.py only): "total = number of REAL
-cost calls", the nested solvers themselves (C01-C05), `copy.deepcopy`, the map, `fillpts` (an optimisation run).
+cost calls", the nested solvers themselves (C01-C05; an arbitrary `run` in the template theorems), that
+`copy.deepcopy` really returns an independent object (the harness compares object identities and the template's
+state with the model on every run), the map, `fillpts` (an optimisation run).
 -/
 import MysticVerif.Proofs.Ensemble
 
@@ -221,6 +229,51 @@ theorem samplepts_in_range (lb ub : List K) (npts : Nat) (us pts : List (List K)
   exact ⟨l, u, a1, a2, this.1, this.2⟩
 
 end Samples
+
+/-! ## sampled points with a user-supplied distribution -/
+section DistSamples
+variable {K : Type} [LinearOrder K]
+
+/-- **sampled points stay within their ranges, for every distribution** (`random_samples(lb, ub, npts, dist, clip)`,
+samples.py l.50-70: draw, clip, redraw the entries sitting on a bound, clip again, repeat).  For ALL draw streams (the
+initial matrix `init` and every later redraw `draw`: any values whatsoever - mass outside the box on either side, on
+the bounds, anything), any number of tries `n` and bounds `lb[i] ≤ ub[i]`: whenever the function returns, the result
+has the shape of the initial draw, and every entry of coordinate row `i` lies in `[lb[i], ub[i]]` - strictly inside
+when `clip=False` (an entry equal to a bound is always redrawn).  Only comparisons are involved: the statement is
+exact for binary64 (no rounding caveat, unlike the uniform sampler). -/
+theorem dist_samples_in_range (draw : Nat → Nat → K) (lb ub : List K) (init : List (List K)) (clip : Bool) (n c : Nat)
+    (pts : List (List K)) (h : randomSamplesDist draw lb ub init clip n = .ok (c, pts))
+    (hb : ∀ (i : Nat) (l u : K), lb[i]? = some l → ub[i]? = some u → l ≤ u) :
+    pts.map List.length = init.map List.length ∧ pts.length = lb.length ∧
+    ∀ (i : Nat) (row : List K), pts[i]? = some row → ∃ l u, lb[i]? = some l ∧ ub[i]? = some u ∧
+      ∀ x ∈ row, l ≤ x ∧ x ≤ u ∧ (clip = false → l < x ∧ x < u) :=
+  randomSamplesDist_spec draw lb ub init clip n c pts h hb
+
+/-- **samplepts with a distribution** (grid.py l.42-58, what `BuckshotSolver._InitialPoints` returns after
+`SetDistribution`): exactly `npts` points of `len(lb)` coordinates, coordinate `i` of every point strictly inside
+`(lb[i], ub[i])`, for all draw streams. -/
+theorem samplepts_dist_in_range (draw : Nat → Nat → K) (lb ub : List K) (npts : Nat) (init : List (List K)) (n c : Nat)
+    (pts : List (List K)) (h : sampleptsDist draw lb ub npts init n = .ok (c, pts))
+    (hrows : ∀ row ∈ init, row.length = npts)
+    (hb : ∀ (i : Nat) (l u : K), lb[i]? = some l → ub[i]? = some u → l ≤ u) :
+    pts.length = npts ∧ ∀ p ∈ pts, p.length = lb.length ∧
+      ∀ (i : Nat) (v : K), p[i]? = some v → ∃ l u, lb[i]? = some l ∧ ub[i]? = some u ∧ l < v ∧ v < u :=
+  sampleptsDist_spec draw lb ub npts init n c pts h hrows hb
+
+/-- one clipped entry is inside its range (numpy's kernel, bound returned on ties) -/
+theorem clip_in_range (x lo hi : K) (h : lo ≤ hi) : lo ≤ clipPt x lo hi ∧ clipPt x lo hi ≤ hi :=
+  clipPt_range x lo hi h
+
+/-- non-vacuity: range `[0, 10]`, initial draw `-5, 3, 20` (outside on both sides); the first redraw `12, 5` is
+outside AGAIN for one entry, the second redraw `7` is inside: two redraw calls, result strictly inside. -/
+example : randomSamplesDist (fun c k => ([[12, 5], [7]].getD c []).getD k 0) [(0 : Int)] [10] [[-5, 3, 20]] false 1000
+    = .ok (2, [[7, 3, 5]]) := by decide
+/-- a distribution without mass inside the box: the loop gives up (`RuntimeError`) instead of returning a bad point -/
+example : randomSamplesDist (fun _ _ => (99 : Int)) [0] [10] [[5, 20]] false 4 = .error .runtime := by decide
+/-- `clip=True`: out-of-range entries are put ON the bounds -/
+example : randomSamplesDist (fun _ _ => (0 : Int)) [0] [10] [[-5, 3, 20]] true 1000 = .ok (0, [[0, 3, 10]]) := by decide
+
+end DistSamples
 
 /-! ## randomly_bin -/
 section Bins
@@ -560,5 +613,91 @@ example :
     (updateBest none ms).map (·.id) = some 2 ∧ totalEvals ms = 15 := by decide
 
 end Book
+
+/-! ## the nested solver is a template: members are fresh copies -/
+section Template
+variable {S : Type}
+
+/-- **every empty slot receives a fresh copy of the template** (`__init_allSolvers` l.413-424 with object identity):
+the address in an empty slot was not allocated before (it is neither the configured nested solver handed to
+`SetNestedSolver` nor any existing member), its state is the template's with `id = index + at` set on the COPY;
+occupied slots are kept and no existing object - in particular the template - is changed. -/
+theorem init_members_fresh (setId : S → Nat → S) (t at_ : Nat) (slots : List (Option Nat)) (h : Store S) (ht : t < h.next) :
+    (initMembers setId t at_ 0 h slots).2.length = slots.length ∧
+    (∀ a, a < h.next → (initMembers setId t at_ 0 h slots).1.get a = h.get a) ∧
+    (∀ k : Nat, slots[k]? = some none → ∃ a, (initMembers setId t at_ 0 h slots).2[k]? = some a ∧ h.next ≤ a ∧ a ≠ t ∧
+        (initMembers setId t at_ 0 h slots).1.get a = setId (h.get t) (k + at_)) ∧
+    (∀ (k a : Nat), slots[k]? = some (some a) → (initMembers setId t at_ 0 h slots).2[k]? = some a) := by
+  obtain ⟨a1, _, a3, a4, a5⟩ := initMembers_general setId t at_ slots 0 h ht
+  refine ⟨a1, a3, ?_, a5⟩
+  intro k hk
+  obtain ⟨a, b1, b2, _, b4⟩ := a4 k hk
+  exact ⟨a, b1, b2, by omega, by simpa using b4⟩
+
+/-- **the members of a new ensemble are `n` distinct fresh copies, and member `k` ends as the nested solver run from
+the TEMPLATE's state** (`run k` = whatever the nested solver does for starting point `k`: arbitrary). -/
+theorem members_fresh_copies (setId : S → Nat → S) (run : Nat → S → S) (t at_ n : Nat) (h : Store S) (ht : t < h.next) :
+    (solveNew setId run t at_ n h).2 = List.range' h.next n ∧
+    (solveNew setId run t at_ n h).2.Nodup ∧ t ∉ (solveNew setId run t at_ n h).2 ∧
+    (∀ k, k < n → (solveNew setId run t at_ n h).1.get (h.next + k) = run k (setId (h.get t) (k + at_))) := by
+  obtain ⟨a1, _, _, a4⟩ := solveNew_spec setId run t at_ n h ht
+  refine ⟨a1, by rw [a1]; exact List.nodup_range', ?_, a4⟩
+  rw [a1]
+  simp only [List.mem_range'_1, not_and, not_lt]
+  intro hh; omega
+
+/-- **the template is never advanced**: a solve of a new ensemble built on the nested solver at address `t` leaves `t`
+and every other object that existed before (e.g. the members of another ensemble) exactly as it was - for ANY
+behaviour `run` of the nested solvers, any member count and any id offset. -/
+theorem template_untouched (setId : S → Nat → S) (run : Nat → S → S) (t at_ n : Nat) (h : Store S) (ht : t < h.next) :
+    (solveNew setId run t at_ n h).1.get t = h.get t ∧
+    ∀ a, a < h.next → (solveNew setId run t at_ n h).1.get a = h.get a :=
+  ⟨(solveNew_spec setId run t at_ n h ht).2.2.1 t ht, (solveNew_spec setId run t at_ n h ht).2.2.1⟩
+
+/-- **two ensembles built from one template are independent**: after ensemble 1 (any kind / count / nested-solver
+behaviour) has been solved, a second ensemble built on the SAME configured instance ends with exactly the member
+states it would have had if ensemble 1 had never existed; it does not disturb the members of ensemble 1; the
+two member sets are disjoint and the template is still untouched. -/
+theorem ensembles_independent (setId1 setId2 : S → Nat → S) (run1 run2 : Nat → S → S) (t at1 at2 n1 n2 : Nat)
+    (h : Store S) (ht : t < h.next) :
+    (solveNew setId2 run2 t at2 n2 (solveNew setId1 run1 t at1 n1 h).1).1.get t = h.get t ∧
+    (solveNew setId2 run2 t at2 n2 (solveNew setId1 run1 t at1 n1 h).1).2.map
+        (solveNew setId2 run2 t at2 n2 (solveNew setId1 run1 t at1 n1 h).1).1.get
+      = (solveNew setId2 run2 t at2 n2 h).2.map (solveNew setId2 run2 t at2 n2 h).1.get ∧
+    (∀ a ∈ (solveNew setId1 run1 t at1 n1 h).2,
+      (solveNew setId2 run2 t at2 n2 (solveNew setId1 run1 t at1 n1 h).1).1.get a = (solveNew setId1 run1 t at1 n1 h).1.get a) ∧
+    (∀ a ∈ (solveNew setId2 run2 t at2 n2 (solveNew setId1 run1 t at1 n1 h).1).2,
+      a ∉ (solveNew setId1 run1 t at1 n1 h).2 ∧ a ≠ t) := by
+  obtain ⟨a1, a2, a3, a4⟩ := solveNew_spec setId1 run1 t at1 n1 h ht
+  have ht1 : t < (solveNew setId1 run1 t at1 n1 h).1.next := by omega
+  obtain ⟨b1, b2, b3, b4⟩ := solveNew_spec setId2 run2 t at2 n2 (solveNew setId1 run1 t at1 n1 h).1 ht1
+  obtain ⟨c1, c2, c3, c4⟩ := solveNew_spec setId2 run2 t at2 n2 h ht
+  refine ⟨by rw [b3 t ht1, a3 t ht], ?_, ?_, ?_⟩
+  · rw [b1, c1, List.range'_eq_map_range, List.range'_eq_map_range, List.map_map, List.map_map]
+    apply List.map_congr_left
+    intro k hk
+    have hk' : k < n2 := by simpa using hk
+    simp only [Function.comp]
+    rw [b4 k hk', c4 k hk', a3 t ht]
+  · intro a ha
+    rw [a1] at ha
+    simp only [List.mem_range'_1] at ha
+    exact b3 a (by omega)
+  · intro a ha
+    rw [b1] at ha
+    simp only [List.mem_range'_1] at ha
+    rw [a1]
+    simp only [List.mem_range'_1, not_and, not_lt]
+    exact ⟨fun _ => by omega, by omega⟩
+
+/-- non-vacuity: a template with counter 0 at address 0; ensemble 1 (2 members) and ensemble 2 (3 members) advance their
+own members only (`run k` adds `10 + k`); the template still reads 0 and the five member addresses are 1..5. -/
+example :
+    let h0 : Store Nat := ⟨fun _ => 0, 1⟩
+    let r1 := solveNew (fun s _ => s) (fun k s => s + 10 + k) 0 0 2 h0
+    let r2 := solveNew (fun s _ => s) (fun k s => s + 20 + k) 0 0 3 r1.1
+    r1.2 = [1, 2] ∧ r2.2 = [3, 4, 5] ∧ r2.1.get 0 = 0 ∧ (r1.2 ++ r2.2).map r2.1.get = [10, 11, 20, 21, 22] := by decide
+
+end Template
 
 end MysticVerif.C09
